@@ -23,8 +23,10 @@ RULE = (
     'logarithmic units, or Decimal mixed with float, or an angle function on non-radian input, and the operation '
     'did not raise. Round 4: temperature operands (K, Cel, degF, degR arrays); a query answered once, then again '
     'after an unrelated Decimal quantity used the same unit strings. Later rounds: zero operands in another unit; '
-    'slices sharing their buffer (getitem followed by a write into one side); the identity power. Distinct = '
-    'distinct case JSON.'
+    'slices sharing their buffer (getitem followed by a write into one side); the identity power. Rounds 7-8: '
+    'level operands under the other prefix; number types of magnitude and unit factor in the snapshot; read-only '
+    'queries after the operation; follow-ups toq (target quantity only read) and peek (answer overwritten, asked '
+    'again); equal but separately built quantities. Distinct = distinct case JSON.'
 )
 ASSUMPTIONS = [
     "the snapshot holds the number types of the magnitude and of the unit factor as well: a float operand that comes back as "
